@@ -14,6 +14,7 @@ func main() {
 	hk.Main("C05", runC05, map[string]hk.Gosyncer{
 		"quicvarint": syncVarintConsts,
 		"h2consts":   syncH2Consts,
+		"h3consts":   syncH3Consts,
 	})
 }
 
@@ -26,4 +27,6 @@ func runC05(r *hk.Run) {
 	runVarints(r, rng.Fork())
 	runH2Read(r, rng.Fork())
 	runH2Write(r, rng.Fork())
+	runH3Frames(r, rng.Fork())
+	runH3Fields(r, rng.Fork())
 }
